@@ -82,6 +82,9 @@ class Project:
                     f"Dependency loop detected {target_name} -> {dep}"
                 )
             self.dfs(dep, state)
+        # Only the targets on the current search path form a loop with a
+        # dependency seen again (a target reached twice is not a loop):
+        state.remove(target_name)
 
     def check_target(self, target_name):
         state = set()
